@@ -231,7 +231,15 @@ ADDED = {'C01': 'G2-no-shared-mutation: the transposes only read the cached rout
          'C20': "N1-call-site: the process count is the size of the communicator the layouts are built on; N3-no-stuck-iteration: no iteration path of a search loop reaches the back edge with the loop-carried state unchanged (the one such path of today's code is discharged by the monotonicity argument, which is accepted only while the statements carrying it are recognised); N4-pure-search: no in-place change of a memoised result, no global state."}
 
 
+def _round_notes():
+    try:
+        return json.load(open(os.path.join(ROOT, "tools", "round_notes.json")))
+    except (OSError, ValueError):
+        return {}
+
+
 def main():
+    RN = _round_notes()
     props = [json.loads(l) for l in open(os.path.join(ROOT, "properties.jsonl"))]
     checks = []
     na = []
@@ -248,7 +256,7 @@ def main():
                 "evidence_file": f"/verif/evidence/{pid}.json",
                 "replay_cmd_template": f"/venv/bin/python -m pgverif check {pid} --tier quick  # replay file {{path}} names the obligation",
                 "engine": "pgverif",
-                "level_claimed": {"category": "other", "text": c["text"] + (" Also decided: " + ADDED[pid] if pid in ADDED else "") + (" Round 3: " + ROUND3[pid] if pid in ROUND3 else ""),
+                "level_claimed": {"category": "other", "text": c["text"] + (" Also decided: " + ADDED[pid] if pid in ADDED else "") + (" Round 3: " + ROUND3[pid] if pid in ROUND3 else "") + (" " + RN[pid]["r45"] + " " + RN[pid]["audit"] if pid in RN else ""),
                                   "design_ref": c["design"]},
                 "level_note": TRUST + " " + c.get("note", ""),
                 "technique": c["technique"],
